@@ -181,3 +181,13 @@ Qed.
 (* on fresh variables the two agree, which is why literals never show it *)
 Lemma status_from_inner_tag_fresh rec : var_status_inner (decode_into fresh_var rec) = Ok rec.
 Proof. destruct rec; reflexivity. Qed.
+
+(** *** round 6.  Send / SendV2 treating send mode 0 as "not set" and signing
+    the default mode 3 instead: the carried mode differs from the requested one
+    (RawSend / RawSendV2 / CreateMessageBody keep 0, so the entry points disagree). *)
+Definition zero_mode_as_unset (m : N) : N := if N.eqb m 0 then 3%N else m.
+
+Lemma zero_mode_as_unset_refuted :
+  exists t : WalletTransfer.transfer,
+    zero_mode_as_unset (WalletTransfer.t_mode t) <> WalletTransfer.t_mode t.
+Proof. exists (WalletTransfer.mktr 0 0 [] false None None 0). cbn. discriminate. Qed.
